@@ -54,6 +54,7 @@ func runC04(c *core.Ctx) {
 	// entries answer differently (shared with C14.R2)
 	c14R2as(c, "C04.R7")
 	c04R8(c, "C04.R8")
+	c04Range(c, "C04.R9")
 }
 
 // mergeKernels returns the functions containing the LWW kernels: for each production
@@ -314,6 +315,22 @@ func c04AddDel(c *core.Ctx) {
 					return false
 				})
 				c.Check(ok, rule, name+":stored back", sets[0].Pos(), "the updated entry is stored whenever the time advanced", fmt.Sprintf("time advanced but the entry is not stored: %v", w))
+				// the operation always gets as far as the comparison: no path returns before
+				// `stored < now` is evaluated (an early return for "already added/removed" entries
+				// drops an update whose stamp is newer than what is stored)
+				isCmp := func(i ssa.Instruction) bool {
+					bo, ok := i.(*ssa.BinOp)
+					if !ok {
+						return false
+					}
+					at := eng.Normalize(bo)
+					_, match := pred.Match(at)
+					return match
+				}
+				early, wp := eng.Reach(f, nil, isCmp, eng.IsReturn)
+				c.Check(!early, rule, name+":always compares", f.Pos(), "every path evaluates stored<now before returning", fmt.Sprintf("%s can return without comparing the stored time with the clock (e.g. an early return for an entry that is already %s): an update that is newer than what is stored is dropped and replicas that received the same updates diverge: %v", m.name, map[string]string{"Add": "added", "Del": "removed"}[m.name], wp))
+				ok3, w3 := eng.MustFollow(f, []eng.Pred{pred}, func(i ssa.Instruction) bool { return i == sets[0].(ssa.Instruction) })
+				c.Check(ok3, rule, name+":time written whenever stored<now", sets[0].Pos(), "the stamp advances whenever the clock is ahead of it", fmt.Sprintf("stored<now holds but the time is not written on some path: %v", w3))
 				if m.name == "Del" {
 					// Del must not touch the add time, Add must not touch the del time
 					c.Check(len(eng.Calls(f, false, idValSetAddTime)) == 0, rule, name+":Del leaves add time", f.Pos(), "Del does not modify the add time", "Del modifies the add time")
@@ -475,12 +492,27 @@ func denotesParam(fn *ssa.Function, v ssa.Value, p ssa.Value, depth int) bool {
 		case *ssa.Alloc:
 			return allocHolds(a, p)
 		case *ssa.FreeVar:
-			for i, fv := range fn.FreeVars {
-				if fv == a {
-					if al, ok := closureBinding(fn, i).(*ssa.Alloc); ok {
-						return allocHolds(al, p)
+			// a variable captured by reference, possibly through several nested closures
+			g, cur := fn, ssa.Value(a)
+			for d := 0; d < 4 && g != nil; d++ {
+				fv, isFV := cur.(*ssa.FreeVar)
+				if !isFV {
+					break
+				}
+				idx := -1
+				for i, x := range g.FreeVars {
+					if x == fv {
+						idx = i
 					}
 				}
+				if idx < 0 {
+					return false
+				}
+				cur = closureBinding(g, idx)
+				g = g.Parent()
+			}
+			if al, ok := cur.(*ssa.Alloc); ok {
+				return allocHolds(al, p)
 			}
 		}
 	case *ssa.FreeVar:
@@ -683,5 +715,86 @@ func c04R8(c *core.Ctx, rule string) {
 			ok = ok && isKC && kc.Call.IsInvoke() && kc.Call.Method.Name() == "Key" && kc.Call.Value == f.Params[1]
 		}
 		c.Check(ok, rule, fnName(f)+":routes by unit type", f.Pos(), "subsets[ev.unitType()]."+m.name+"(ev.Key(), …)", "State."+m.name+" does not address subsets[ev.unitType()] with ev.Key()")
+	}
+}
+
+// c04Range: enumeration of a replicated set is a full scan filtered by prefix. Both
+// implementations of crdt.Map.Range visit every stored entry (Durable: tx.Ascend over the
+// whole keyspace — a range-bounded iteration needs an upper bound computed from the prefix,
+// which wraps for prefixes ending in 0xff and then visits nothing) and call f exactly for the
+// entries whose key has the prefix and that are added (or all, with tombstones).
+// SubscriptionsOf/ConnectionsOf (what onPeerOffline walks) are built on it.
+func c04Range(c *core.Ctx, rule string) {
+	c.Rule(rule, "crdt.Map.Range (both implementations): the iteration covers the whole set (Durable: one tx.Ascend(\"\", …), no bounded buntdb iteration); f(k, v) is called only under bytes.HasPrefix(k, prefix) and always when the prefix matches and the value IsAdded", 4)
+	n := c.P.Type("internal/event/crdt", "Map")
+	if n == nil {
+		c.Undecided(rule, "anchor:crdt.Map", token.NoPos, "anchor missing")
+		return
+	}
+	bounded := []string{"AscendRange", "AscendGreaterOrEqual", "AscendLessThan", "AscendEqual", "Descend", "DescendRange", "DescendGreaterThan", "DescendLessOrEqual", "DescendEqual", "AscendKeys", "DescendKeys"}
+	for _, t := range c.P.Implementers(n.Underlying().(*types.Interface)) {
+		top := c.P.MethodOf(t, "Range")
+		if top == nil || top.Blocks == nil {
+			continue
+		}
+		name := fnName(top)
+		prefixP, fP := ssa.Value(top.Params[1]), ssa.Value(top.Params[3])
+		var site ssa.CallInstruction
+		var host *ssa.Function
+		nIter, badIter := 0, ""
+		for _, g := range eng.WithAnon(top) {
+			eng.Instrs(g, func(in ssa.Instruction) {
+				ci, ok := in.(ssa.CallInstruction)
+				if !ok {
+					return
+				}
+				cc := ci.Common()
+				if id := eng.FuncID(eng.CalleeObj(cc)); strings.HasPrefix(id, "github.com/tidwall/buntdb.Tx.") {
+					m := id[strings.LastIndex(id, ".")+1:]
+					if m == "Ascend" {
+						nIter++
+						if k, ok := eng.CallArgs(cc)[1].(*ssa.Const); !ok || k.Value == nil || k.Value.ExactString() != `""` {
+							badIter = "tx.Ascend over an index other than the whole keyspace"
+						}
+					}
+					for _, b := range bounded {
+						if m == b {
+							badIter = "bounded buntdb iteration Tx." + m
+						}
+					}
+				}
+				if cc.StaticCallee() == nil && !cc.IsInvoke() {
+					if _, isB := cc.Value.(*ssa.Builtin); !isB && denotesParam(g, cc.Value, fP, 0) {
+						site, host = ci, g
+					}
+				}
+			})
+		}
+		if strings.Contains(name, "Durable") {
+			c.Check(nIter == 1 && badIter == "", rule, name+":scans the whole set", top.Pos(), "one tx.Ascend(\"\", …) over all keys", "the durable set is not enumerated by one full tx.Ascend(\"\", …) ("+badIter+"): entries can be skipped (a computed upper bound wraps for prefixes ending in 0xff), so SubscriptionsOf/ConnectionsOf miss a lost broker's entries")
+		} else {
+			rng := 0
+			eng.Instrs(top, func(in ssa.Instruction) {
+				if r, ok := in.(*ssa.Range); ok {
+					if _, isData := eng.LoadOfField(r.X, "data"); isData {
+						rng++
+					}
+				}
+			})
+			c.Check(rng == 1, rule, name+":scans the whole set", top.Pos(), "one range over the data map", "the volatile set is not enumerated by one range over its data map")
+		}
+		if site == nil {
+			c.Fail(rule, name+":calls f", top.Pos(), "Range never calls its callback")
+			continue
+		}
+		hasPrefix := eng.CallPred("bytes.HasPrefix(key, prefix)", "bytes.HasPrefix", -1, true, func(a []ssa.Value) bool {
+			return len(a) == 2 && denotesParam(host, a[1], prefixP, 0)
+		})
+		isAdded := eng.CallPred("value.IsAdded()", idValIsAdded, -1, true, nil)
+		g := eng.Guarded(site, hasPrefix)
+		c.Count("guard_cuts", 1)
+		c.Check(g.Guarded && g.Edges > 0, rule, name+":f only for keys with the prefix", site.Pos(), "cut off by bytes.HasPrefix(key, prefix)", "f is called for keys that do not have the prefix")
+		ok, w := eng.MustFollow(host, []eng.Pred{hasPrefix, isAdded}, func(i ssa.Instruction) bool { return i == site.(ssa.Instruction) })
+		c.Check(ok && eng.HasLicensingEdge(host, isAdded), rule, name+":f for every added entry with the prefix", site.Pos(), "every added entry whose key has the prefix is reported", fmt.Sprintf("an added entry whose key has the prefix is not reported on some path: %v", w))
 	}
 }
